@@ -141,7 +141,11 @@ def shrink(mod, case, still_fails, budget=200):
     improved = True
     while improved and budget > 0:
         improved = False
-        for cand in mod.shrink(case):
+        try:
+            cands = list(mod.shrink(case))
+        except Exception:               # noqa: BLE001  (a case kind the module's shrinker does not know: keep the case)
+            cands = []
+        for cand in cands:
             budget -= 1
             if budget <= 0:
                 break
